@@ -95,3 +95,14 @@ Example C13_gone_evaluated :
   | _ => False
   end.
 Proof. vm_compute. reflexivity. Qed.
+
+(* retain / truncate: an element the predicate rejects, or one at a position >= len, is gone *)
+Theorem C13_retained_out_is_gone :
+  forall l p it, Inv l -> In it (items l) -> eval_pred p it = false -> gone (il_retain l p) (iname it).
+Proof. exact retained_out_gone. Qed.
+Print Assumptions C13_retained_out_is_gone.
+
+Theorem C13_truncated_off_is_gone :
+  forall l n i it, Inv l -> nth_error (items l) i = Some it -> n <= i -> gone (il_truncate l n) (iname it).
+Proof. exact truncated_off_gone. Qed.
+Print Assumptions C13_truncated_off_is_gone.
